@@ -34,7 +34,7 @@ def gen_cases(rng, tier):
   n = {'quick': 400, 'thorough': 8000, 'search': 200}[tier]
   out = []
   for i in range(n):
-    L = lg.gen_leaf(rng, cls=CLASSES[i % len(CLASSES)])
+    L = lg.gen_leaf(rng, cls=CLASSES[i % len(CLASSES)], variant=i // len(CLASSES))
     s = lg.gen_flow(rng, L)
     p, pk = lg.gen_price(rng, L['n'])
     out.append({'leaf': L, 's': s, 'p': p})
